@@ -12,6 +12,20 @@ Theorem C02_presented_path : forall fs base is_abs p c, chain fs base ->
 Proof. exact presented_sound. Qed.
 Print Assumptions C02_presented_path.
 
+(** the same with /proc/self and /proc/thread-self, whose targets depend on who reads them: the code substitutes
+    the tracee's entries; for every forest in which these are the links the tracee sees (any pid) *)
+Theorem C02_presented_path_proc : forall fs special, spec_ok fs special -> forall base is_abs p c, chain fs base ->
+  kernel_resolution fs true base is_abs p = KOk c -> presented_m fs special base is_abs p = c.
+Proof. exact presented_sound_m. Qed.
+Print Assumptions C02_presented_path_proc.
+
+Theorem C02_proc_special_ok : forall fs pr self tself pid task,
+  fs [pr] = Some Dir -> fs [pr; pid] = Some Dir -> fs [pr; pid; task] = Some Dir -> fs [pr; pid; task; pid] = Some Dir ->
+  fs [pr; self] = Some (Link false [Name pid]) -> fs [pr; tself] = Some (Link false [Name pid; Name task; Name pid]) ->
+  spec_ok fs (proc_special pr self tself pid task).
+Proof. exact proc_special_ok. Qed.
+Print Assumptions C02_proc_special_ok.
+
 (** calls that do not follow a final link: the same as long as the object reached is not itself a link *)
 Theorem C02_presented_path_nofollow_partial : forall fs base is_abs p c, chain fs base ->
   kernel_resolution fs false base is_abs p = KOk c -> (forall a t, fs c <> Some (Link a t)) -> presented fs base is_abs p = c.
